@@ -64,3 +64,22 @@ package aggregator
 //@   invariant[C13.cm.decimals] -1 <= outer_rangeindex && outer_rangeindex + 1 < len(msg.Prices) && forall(i, 0, outer_rangeindex + 1, cmAll(msg, i, cmDec(*agc.params, msg.FeederID)))
 //@   invariant[C13.cm.decimals] -1 <= rangeindex && rangeindex < len(msg.Prices[outer_rangeindex + 1].Prices) &&
 //@        forall(j, 0, rangeindex + 1, msg.Prices[outer_rangeindex + 1].Prices[j].Decimal == cmDec(*agc.params, msg.FeederID))
+
+// C13 (a submission is counted only if it reports a source round this validator has not yet reported): the set of
+// source rounds already seen is kept per validator AND per source: the key a source's rounds are looked up under is
+// built from the id of THAT source.
+//@ func (*filter).addPSource
+//@   flag noframe
+//@   flag pure=newVSSet,Add
+//@   before[C13.aps.key] strconv.Itoa requires pSource.SourceID < 9223372036854775808 ==> arg0 == pSource.SourceID
+//@ loop #1
+//@   invariant true
+//@ loop #2
+//@   invariant true
+
+// C12 (agreement is counted per source round): the list of source rounds tracked for one source has room for every
+// round every validator may report (MaxDetID each), so that an unknown round always gets its own entry and is never
+// merged into another one.
+//@ func (*calculator).newRoundPricesList
+//@   requires c != nil && 0 <= c.validatorLength && c.validatorLength < 1000000
+//@   ensures[C12.nrpl.room] result != nil && cap(result.roundPricesList) == g("x/oracle/keeper/common.MaxDetID") * c.validatorLength && len(result.roundPricesList) == 0
